@@ -33,7 +33,7 @@ MANIFEST = {
     'technique': 'explicit-state BFS over request histories on the real application (fresh import per replay), states '
                  'deduplicated by a canonical walk of all retained objects; per-transition differential oracle against a '
                  'fresh process; fixpoint = bounded retained state; k^N liveness runs with weak references',
-    'text': 'All histories over 15 request kinds are served in every order up to depth 3 (quick) / 4 (thorough; plus BFS with state merging to '
+    'text': 'All histories over 24 request kinds are served in every order up to depth 3 (quick) / 4 (thorough; plus BFS with state merging to '
             'depth 6); every served response is compared with the response of the same request on a freshly '
             'imported framework; each kind is repeated N times and the live per-request objects are counted.',
     'note': 'Bounds: 15 request kinds, depth as stated, N=2000 (thorough 5000). Trusted: CPython gc/weakref, the canonicaliser.',
